@@ -110,10 +110,11 @@ type Eval struct {
 	loopMods map[*ssa.BasicBlock][]string
 	usedConstGlobals bool
 	prov     map[string]string // interface term loaded from fidRef.file -> the fidRef
+	provGhost map[string]bool  // provenance that is a ghost parameter (may be 0 = none)
 }
 
 func NewEval(p *Program) *Eval {
-	e := &Eval{p: p, siteCnt: map[string]int{}, muTags: map[string]int{}, prov: map[string]string{}}
+	e := &Eval{p: p, siteCnt: map[string]int{}, muTags: map[string]int{}, prov: map[string]string{}, provGhost: map[string]bool{}}
 	e.c = NewCtx(p)
 	return e
 }
